@@ -256,6 +256,23 @@ fn class_count(ds: &PartialDSym, k: usize, cap: usize) -> usize {
     coset_tables(fg.nr_generators(), &fg.relators, k).take(cap).count()
 }
 
+/// The lookup key of `is_euclidean` (euclidicity::orbifold_invariant is
+/// private): same recipe, public API.
+fn orbifold_invariant_string(ds: &PartialDSym) -> String {
+    use rust_dsymbols::delaney3d::orbifold_graph;
+    let (labels, edges) = orbifold_graph(ds);
+    let fg = fundamental_group(ds);
+    let invars = abelian_invariants(fg.nr_generators(), &fg.relators);
+    let mut parts = vec![labels.len().to_string()];
+    parts.extend(labels);
+    parts.push(if ds.is_oriented() { "2".to_string() } else if ds.is_weakly_oriented() { "1".to_string() } else { "0".to_string() });
+    parts.push(edges.len().to_string());
+    parts.push(invars.len().to_string());
+    parts.extend(invars.iter().map(|n| n.to_string()));
+    parts.push(String::new());
+    parts.join("/")
+}
+
 fn repo_h1(ds: &PartialDSym) -> Vec<u64> {
     let fg = fundamental_group(ds);
     sorted_invariants(&abelian_invariants(fg.nr_generators(), &fg.relators))
@@ -492,6 +509,15 @@ impl Executor {
                 rec.out_fp = fnv64(format!("{}:{}", class, reason).as_bytes());
                 if spec.known_euclidean && class != "yes" {
                     rec.failures.push((format!("O17.5:known-euclidean-got-{}", class), reason.clone()));
+                }
+                if class == "yes" && spec.want_inv {
+                    // coverage instrument only (never an oracle): the invariant
+                    // string is_euclidean looked up, rebuilt from public API
+                    let ds = s.to_partial();
+                    let inv = std::panic::catch_unwind(std::panic::AssertUnwindSafe(|| orbifold_invariant_string(&ds)));
+                    if let Ok(inv) = inv {
+                        rec.notes.push(format!("inv:{}", inv));
+                    }
                 }
                 if class == "yes" && spec.deep {
                     match self.certificate(&s) {
